@@ -23,6 +23,10 @@ type decOpts struct {
 // BufferSize in {0 (= 2W), W+1, W+2, ..., W+64}; rarely the defaults.
 func genDCfg(t *rapid.T) DCfg {
 	var c DCfg
+	if rapid.IntRange(0, 39).Draw(t, "defaults") == 0 {
+		// the defaults: WindowSize 8 MiB, BufferSize 16 MiB (allocated lazily)
+		return c
+	}
 	switch weighted(t, "winKind", 5, 3, 1) {
 	case 0:
 		c.WindowSize = rapid.IntRange(1, 8).Draw(t, "win")
@@ -256,7 +260,11 @@ func genDecHistory(t *rapid.T, x *decExec, o decOpts) {
 			}
 			x.step(DOp{Op: "writeto", W: ev})
 		case 6:
-			x.step(DOp{Op: "reset"})
+			if x.buf != nil && rapid.Bool().Draw(t, "reinit") {
+				x.step(DOp{Op: "reinit"})
+			} else {
+				x.step(DOp{Op: "reset"})
+			}
 		case 7:
 			x.step(DOp{Op: "byteatend", Len: rapid.IntRange(-1, minInt(cc.WindowSize, 70)+2).Draw(t, "bae")})
 		case 8:
